@@ -26,7 +26,7 @@ NAMES = ["t0", "t1", "t2"]
 
 
 class Gen5(sg.Gen):
-    """values may put NULL into NOT NULL columns (accepted by both engines: constraints are not enforced)"""
+    """values may put NULL into NOT NULL columns (both engines must reject the statement, since 652f6b6)"""
     null_in_nn = 0.04
 
     def gen_val(self, ty, nn, wide=False):
@@ -271,6 +271,7 @@ def run(ck):
     impl, model, ann, errs = sg.run_hists(ck.work, vlib.harness_bin("c05"), vlib.lean_exe("drv_c05"), hists, "c05", shards=12)
     if errs:
         ck.report("harness:crash", "the harness process failed: %s" % errs[0][1][-400:], replay={"stderr": errs[0][1]}, found_input=False)
+    OUTC = {}
     T = {"mi": 0, "mi_bad": 0, "io": 0, "io_bad": 0, "mo": 0, "mo_bad": 0, "steps": 0, "queries": 0, "q_nontrivial": 0,
          "tagged": 0, "tagged_bad": 0}
     samples, distinct = [], set()
@@ -319,6 +320,14 @@ def run(ck):
                 # legitimately differ from here on, by the recorded mechanism
                 break
             if s["k"] in ("create", "drop", "view", "index", "insert", "delete") and not empty_chunk:
+                # observed outcomes (what both engines answered, not what the generator intended)
+                if i.get("mout") == i["out"]:
+                    cls = "err" if str(i["out"]).startswith("err") else "ok"
+                    key = "outcome-both:%s:%s" % (s["k"], cls)
+                    if s["k"] == "insert" and cls == "err" and s.get("rows") is not None and s.get("def") is not None and any(
+                            v is None and (c[2] or c[3]) for row in s["rows"] for v, c in zip(row, s["def"].cols)):
+                        key = "outcome-both:insert:not-null-rejected"
+                    OUTC[key] = OUTC.get(key, 0) + 1
                 if i.get("mout") != i["out"]:
                     bad_here = ("outcome of `%s`" % s.get("sql", s["k"])[:80], i.get("mout"), i["out"])
             if bad_here is None and sg.canon_tabs(i.get("mtabs", "")) != sg.canon_tabs(i.get("tabs", "")):
@@ -450,12 +459,12 @@ def run(ck):
     ck.coverage.update({
         "evaluations": len(hists), "steps": T["steps"], "queries": T["queries"], "tagged_pk_queries": T["tagged"],
         "distinct_nontrivial": len(distinct),
-        "rule": "statement sequences (DDL, INSERT incl. >1024-row batches, DELETE, forced compaction/vacuum/reopen on the disk side) x disk layout options, each step followed by SELECT * of every table and 1-3 generated queries on both engines; distinct_nontrivial = distinct (query, result) pairs with a non-empty result",
+        "rule": "statement sequences (DDL, INSERT incl. >1024-row batches, DELETE, forced compaction/vacuum/reopen on the disk side) x disk layout options, each step followed by SELECT * of every table and 1-3 generated queries on both engines (on keyed tables also pk-ordered scans and key-range scans, plus range scans aimed at block boundaries); `outcome-both:*` in the distribution = statement outcomes OBSERVED identically on both engines (insert:not-null-rejected = INSERT with NULL in a NOT NULL / key column refused by both); distinct_nontrivial = distinct (query, result) pairs with a non-empty result",
         "samples": samples,
         "model_vs_impl": {"compared": T["mi"], "disagree": T["mi_bad"]},
         "impl_vs_oracle": {"compared": T["io"], "disagree": T["io_bad"], "what": "memory engine vs disk engine"},
         "model_vs_oracle": {"compared": T["mo"], "disagree": T["mo_bad"]},
-        "distribution": dict(g.dist, tagged_pk_queries_differing=T["tagged_bad"]),
+        "distribution": dict(g.dist, tagged_pk_queries_differing=T["tagged_bad"], **OUTC),
         "histories_cut_at_c03_defect": T.get("c03_defect_histories", 0),
         "imported_obligations": ["C12 ScanContract.sorted (pk-order scans)", "C13 ScanContract.range (key-range scans)"],
     })
